@@ -23,3 +23,10 @@ pub open spec fn counted_ok(mb: Metablock, keys: Seq<&PublicKey>, id: KeyId) -> 
         && keys[i].sig_ok(signed_msg(mb.metadata)->0, mb.signatures@[j])
 }
 
+
+pub open spec fn sig_ids_distinct(sigs: Seq<Signature>) -> bool {
+    forall|i: int, j: int| 0 <= i < j < sigs.len() ==> (#[trigger] sigs[i]).kid() != (#[trigger] sigs[j]).kid()
+}
+pub open spec fn key_ids_distinct(keys: Seq<&PublicKey>) -> bool {
+    forall|i: int, j: int| 0 <= i < j < keys.len() ==> (#[trigger] keys[i]).kid() != (#[trigger] keys[j]).kid()
+}
